@@ -559,6 +559,24 @@ def run(ctx):
             ctx.evaluations += 1
             for site, cls, detail, k in fails:
                 ctx.violation(site, cls, rec, detail=detail)
+    # no hidden state: boundary matrices / Hodge Laplacians of an edited complex must be those of its current structure
+    from ..stale import check_sc
+
+    def _gen_sc(rng):
+        import xgi
+        S = xgi.SimplicialComplex()
+        nodes = list(range(rng.randint(3, 5)))
+        S.add_nodes_from(nodes)
+        for _ in range(rng.randint(1, 3)):
+            S.add_simplex(rng.sample(nodes, rng.randint(2, min(4, len(nodes)))))
+        return S
+    import xgi as _xgi
+    check_sc(ctx, ctx.rng, _gen_sc, {
+        "boundary_matrix(order=1)": lambda S: _xgi.boundary_matrix(S, order=1),
+        "boundary_matrix(order=2)": lambda S: _xgi.boundary_matrix(S, order=2),
+        "hodge_laplacian(order=0)": lambda S: _xgi.hodge_laplacian(S, order=0),
+        "hodge_laplacian(order=1)": lambda S: _xgi.hodge_laplacian(S, order=1),
+    }, ctx.n(40, 800))
     conclude(ctx, ok, dis, search)
     ctx.assumptions = [
         "node labels are int or str (the code's sort key orders nothing else); bool/float/tuple labels outside the model",
